@@ -67,3 +67,106 @@ Theorem C12_opus_validation_is_the_muxers_check : forall d,
   vr_valid (validate_audio_frame Opus d) = is_valid_opus_packet d.
 Proof. exact opus_validation_is_the_muxers_check. Qed.
 Print Assumptions C12_opus_validation_is_the_muxers_check.
+
+From Muxide Require Export Model.Base Model.Annexb Model.Adts Model.Codec Model.Boxes Model.Indexed Proofs.IndexSafetyProofs.
+(* INDEX SAFETY of the byte parsers (Model/Indexed.v mirrors the Rust code access by access: every data[i],
+   every slice, every usize subtraction and run-time shift is a checked operation returning IxPanic where
+   Rust would panic).  Each theorem says: for ALL inputs the index-level function returns IxOk of exactly
+   what the list-level model function returns; in particular it never panics and never runs out of fuel. *)
+Theorem C12_find_start_code_ix_refines : forall (d : bytes) (from : nat),
+  find_start_code_ix d from = IxOk (find_start_code d from).
+Proof. exact find_start_code_ix_refines. Qed.
+Print Assumptions C12_find_start_code_ix_refines.
+
+Theorem C12_nal_next_ix_refines : forall (d : bytes) (cursor : nat),
+  nal_next_ix d cursor = IxOk (nal_next d cursor).
+Proof. exact nal_next_ix_refines. Qed.
+Print Assumptions C12_nal_next_ix_refines.
+
+Theorem C12_nal_iter_ix_refines : forall d : bytes, nal_iter_ix d = IxOk (nal_iter d).
+Proof. exact nal_iter_ix_refines. Qed.
+Print Assumptions C12_nal_iter_ix_refines.
+
+Theorem C12_annexb_to_avcc_ix_refines : forall d : bytes, annexb_to_avcc_ix d = IxOk (annexb_to_avcc d).
+Proof. exact annexb_to_avcc_ix_refines. Qed.
+Print Assumptions C12_annexb_to_avcc_ix_refines.
+
+Theorem C12_hevc_annexb_to_hvcc_ix_refines : forall d : bytes,
+  hevc_annexb_to_hvcc_ix d = IxOk (hevc_annexb_to_hvcc d).
+Proof. exact hevc_annexb_to_hvcc_ix_refines. Qed.
+Print Assumptions C12_hevc_annexb_to_hvcc_ix_refines.
+
+Theorem C12_adts_to_raw_ix_refines : forall frame : bytes, adts_to_raw_ix frame = IxOk (adts_to_raw frame).
+Proof. exact adts_to_raw_ix_refines. Qed.
+Print Assumptions C12_adts_to_raw_ix_refines.
+
+Theorem C12_build_avcc_box_ix_refines : forall c : avc_config, build_avcc_box_ix c = IxOk (build_avcc_box c).
+Proof. exact build_avcc_box_ix_refines. Qed.
+Print Assumptions C12_build_avcc_box_ix_refines.
+
+Theorem C12_is_h264_keyframe_ix_refines : forall d : bytes, is_h264_keyframe_ix d = IxOk (is_h264_keyframe d).
+Proof. exact is_h264_keyframe_ix_refines. Qed.
+Print Assumptions C12_is_h264_keyframe_ix_refines.
+
+Theorem C12_is_hevc_keyframe_ix_refines : forall d : bytes, is_hevc_keyframe_ix d = IxOk (is_hevc_keyframe d).
+Proof. exact is_hevc_keyframe_ix_refines. Qed.
+Print Assumptions C12_is_hevc_keyframe_ix_refines.
+
+Theorem C12_extract_avc_config_ix_refines : forall d : bytes,
+  extract_avc_config_ix d = IxOk (extract_avc_config d).
+Proof. exact extract_avc_config_ix_refines. Qed.
+Print Assumptions C12_extract_avc_config_ix_refines.
+
+Theorem C12_extract_hevc_config_ix_refines : forall d : bytes,
+  extract_hevc_config_ix d = IxOk (extract_hevc_config d).
+Proof. exact extract_hevc_config_ix_refines. Qed.
+Print Assumptions C12_extract_hevc_config_ix_refines.
+
+Theorem C12_opus_frame_count_ix_refines : forall packet : bytes,
+  opus_frame_count_ix packet = IxOk (opus_frame_count packet).
+Proof. exact opus_frame_count_ix_refines. Qed.
+Print Assumptions C12_opus_frame_count_ix_refines.
+
+Theorem C12_opus_packet_samples_ix_refines : forall packet : bytes,
+  opus_packet_samples_ix packet = IxOk (opus_packet_samples packet).
+Proof. exact opus_packet_samples_ix_refines. Qed.
+Print Assumptions C12_opus_packet_samples_ix_refines.
+
+Theorem C12_is_valid_opus_packet_ix_refines : forall packet : bytes,
+  is_valid_opus_packet_ix packet = IxOk (is_valid_opus_packet packet).
+Proof. exact is_valid_opus_packet_ix_refines. Qed.
+Print Assumptions C12_is_valid_opus_packet_ix_refines.
+
+Theorem C12_is_vp9_keyframe_ix_refines : forall f : bytes, is_vp9_keyframe_ix f = IxOk (is_vp9_keyframe f).
+Proof. exact is_vp9_keyframe_ix_refines. Qed.
+Print Assumptions C12_is_vp9_keyframe_ix_refines.
+
+Theorem C12_parse_vp9_var_uint_ix_refines : forall (data : bytes) (offset : nat),
+  parse_vp9_var_uint_ix data offset = IxOk (parse_vp9_var_uint data offset).
+Proof. exact parse_vp9_var_uint_ix_refines. Qed.
+Print Assumptions C12_parse_vp9_var_uint_ix_refines.
+
+Theorem C12_extract_vp9_config_ix_refines : forall k : bytes,
+  extract_vp9_config_ix k = IxOk (extract_vp9_config k).
+Proof. exact extract_vp9_config_ix_refines. Qed.
+Print Assumptions C12_extract_vp9_config_ix_refines.
+
+Theorem C12_read_leb128_ix_refines : forall data : bytes, read_leb128_ix data = IxOk (read_leb128 data).
+Proof. exact read_leb128_ix_refines. Qed.
+Print Assumptions C12_read_leb128_ix_refines.
+
+Theorem C12_parse_obu_header_ix_refines : forall data : bytes,
+  parse_obu_header_ix data = IxOk (parse_obu_header data).
+Proof. exact parse_obu_header_ix_refines. Qed.
+Print Assumptions C12_parse_obu_header_ix_refines.
+
+Theorem C12_obu_iter_ix_refines : forall data : bytes, len data <= ISIZE_MAX ->
+  obu_iter_ix data = IxOk (obu_iter data).
+Proof. exact obu_iter_ix_refines. Qed.
+Print Assumptions C12_obu_iter_ix_refines.
+
+Theorem C12_is_av1_keyframe_ix_refines : forall data : bytes, len data <= ISIZE_MAX ->
+  is_av1_keyframe_ix data = IxOk (is_av1_keyframe data).
+Proof. exact is_av1_keyframe_ix_refines. Qed.
+Print Assumptions C12_is_av1_keyframe_ix_refines.
+
